@@ -8,15 +8,17 @@ CONSTANTS
   Corrs = {"none", "c"}
   Sts = {"ok", "fail"}
   Ns = {1}
-  Rgs = {1, 2}
+  Rgs = {1}
   Ts = {"tx", "err"}
   MaxId = 1
   MaxTx = 2
   MaxRounds = 1
   Signers = {1, 2}
+  Jumps = {}
 INIT InitMC
 NEXT NextMC
 CONSTRAINT Constr
+VIEW View
 INVARIANTS TypeOK SuccessOnlyIfExactEncoding NoSecondUse EffectsAtMostOnce EffectsAccounted
 PROPERTIES FailedOrForeignRemovesWithoutEffects
 CHECK_DEADLOCK FALSE
